@@ -48,6 +48,7 @@ package render
 //@ ensures outputElsewhere: forall(x, "Val", !newbuf(x) ==> wtotal(x) == old(wtotal(x)))
 //@ ensures tree: @tree
 //@ method RenderFile
+//@ requires tag: intag(this)
 //@ assigns *
 //@ ensures noOutput: forall(x, "Val", !newbuf(x) ==> wtotal(x) == old(wtotal(x)))
 //@ ensures tree: @tree
@@ -116,7 +117,8 @@ package render
 //@ ensures others: forall(x, "Val", x != tw.w ==> wtotal(x) == old(wtotal(x)))
 
 // ---- rendererContext: the implementation of render.Context --------------------------
-//@ typeinv render.rendererContext: self.ctx.bindings != nil && (self.node != nil ==> valid(self.node)) && (self.cn != nil ==> valid(self.cn))
+// intag(ctx): the context belongs to a tag (not a block); RenderFile needs the tag's location.
+//@ typeinv render.rendererContext: intag(box(self, render.rendererContext)) == (self.node != nil) && self.ctx.bindings != nil && (self.node != nil ==> valid(self.node)) && (self.cn != nil ==> valid(self.cn))
 //@ typeinv render.nodeContext: self.bindings != nil
 
 //@ func (render.rendererContext).Bindings
@@ -375,6 +377,8 @@ package render
 //@ ensures nodeError: nerr != nil ==> result == nerr
 //@ ensures flushError: ferr != nil ==> result != nil
 //@ ensures ok: nerr == nil && ferr == nil ==> result == nil
+//@ ensures onlyw: forall(x, "Val", x != w && !newbuf(x) ==> wtotal(x) == old(wtotal(x)))
+//@ ensures tree: @tree
 
 // ---- include: RenderFile (C14) ---------------------------------------------------------
 // Disk wins over the cache; the included source is compiled with the INCLUDING tag's
